@@ -52,6 +52,9 @@ func main() {
 		os.Exit(2)
 	}
 	mode, name := os.Args[1], os.Args[2]
+	if mode == "fschild" { // traced child of the fstrace stream (C07)
+		os.Exit(fsChildMain(os.Args[2:]))
+	}
 	if mode == "translate" {
 		fmt.Print(runTranslate(name))
 		return
